@@ -24,7 +24,10 @@ func runTraceProp(c *Ctx) {
 	c.Replayer = replayExits
 	runContracts(c, cs, opt, defaultSolve())
 	if c.Prop == "C07" {
-		sweepExits(c, cs, opt)
+		sweepTrace(c, cs, opt, "forward-exits")
+	}
+	if c.Prop == "C01" {
+		sweepTrace(c, cs, opt, "eval-once")
 	}
 	c.Assume = append(c.Assume,
 		"every evaluation of a Lisp form (slip.EvalArg, Scope.Eval, Object.Eval, Caller.Call) is one ghost event with an arbitrary result and arbitrary effects on the heap",
@@ -36,9 +39,12 @@ func runTraceProp(c *Ctx) {
 // that evaluates Lisp forms itself (slip.EvalArg, Scope.Eval) and has no C07 contract of its own is verified
 // against the exit-forwarding discipline: nothing is evaluated after an evaluation returned a return-from / go
 // marker, and the marker is what the function returns.
-func sweepExits(c *Ctx, cs *vc.Contracts, opt vc.Options) {
+//
+// With option eval-once (C01) the clause is: the forms of the function's own argument list are evaluated
+// left to right, none twice (iteration constructs fail this by design and stay undecided).
+func sweepTrace(c *Ctx, cs *vc.Contracts, opt vc.Options, option string) {
 	pkgs := map[string]bool{}
-	for _, p := range cs.Sweeps["forward-exits"] {
+	for _, p := range cs.Sweeps[option] {
 		pkgs[p] = true
 	}
 	if len(pkgs) == 0 {
@@ -63,13 +69,13 @@ func sweepExits(c *Ctx, cs *vc.Contracts, opt vc.Options) {
 	// synthetic contract blocks: the package-wide clause applied to each function
 	for _, fn := range roots {
 		n := vc.FuncName(fn)
-		cs.ByFunc[n] = &vc.Contract{Func: n, Loops: map[string][]*vc.Clause{}, Options: map[string]bool{"forward-exits": true}, Props: []string{"C07"}}
+		cs.ByFunc[n] = &vc.Contract{Func: n, Loops: map[string][]*vc.Clause{}, Options: map[string]bool{option: true}, Props: []string{c.Prop}}
 	}
 	o := opt
 	o.Contracts = cs
 	res := c.runUnits(roots, o, defaultSolve(), 16)
 	c.addResults(res)
-	c.Extra["forward_exits_sweep_functions"] = len(roots)
+	c.Extra[strings.ReplaceAll(option, "-", "_")+"_sweep_functions"] = len(roots)
 }
 
 // lispNameOf: the Lisp name of the built-in whose Call method (or Place) is the root.
